@@ -62,3 +62,11 @@ Theorem C08_sequential_is_a_schedule : forall u evs v now,
   = concat (volvo_run u v now evs).
 Proof. exact vsched_sequential. Qed.
 Print Assumptions C08_sequential_is_a_schedule.
+
+(* the premise of abstracting from time in this property's model: the code it models waits, polls and gives up
+   exactly where the model says (primitive codes in Proofs/W_*.v); re-extracted from the source on every run *)
+Require Import GV.Gen.Consts GV.Proofs.W_governor GV.Proofs.W_volvo GV.Proofs.W_engine.
+Theorem C08_time_abstraction : waits_governor = (@cons Z 7%Z (@cons Z 7%Z (@cons Z 7%Z (@nil Z)))) /\ waits_volvo = (@nil Z) /\ waits_engine = (@nil Z).
+Proof. exact (conj w_governor (conj w_volvo w_engine)). Qed.
+Check C08_time_abstraction : waits_governor = (@cons Z 7%Z (@cons Z 7%Z (@cons Z 7%Z (@nil Z)))) /\ waits_volvo = (@nil Z) /\ waits_engine = (@nil Z).
+Print Assumptions C08_time_abstraction.
